@@ -87,7 +87,7 @@ def gen_refine(rng):
         # nearly aligned start: the reflection is consistent with a cell 1 % smaller and an orientation a few 1e-3 .. 1e-1 degrees away
         scale_true = 1 / 1.01
         true_p = tuple(p * scale_true if not is_angle(system, i) else p for i, p in enumerate(params))
-        ang = radians(rng.choice([0.1, 0.02, 0.01, 0.005, 0.001]))
+        ang = radians(rng.choice([0.1, 0.02, 0.01, 0.005, 0.001, 0.0, 0.0]))      # incl. a direction that is already exact: only the cell is off
         ax = np.array([rng.uniform(-1, 1) for _ in range(3)]); ax /= np.linalg.norm(ax)
         U_true = rot_from_rotvec(list(ax * ang)) @ U
         t = mk(system, true_p, U_true)
@@ -233,8 +233,10 @@ def make_fit_case(rng, system, exact=True, params=None):
     ub = mk(system, start_p, dU @ U_true)
     from diffcalc.hkl.geometry import Position
     with quiet():
+        tagging = rng.choice(["distinct", "distinct", "none", "same", "mixed"])      # tags are optional labels: they must not matter to a fit addressed by index
         for i, (hkl, pos, e) in enumerate(data):
-            ub.add_reflection(hkl, Position(*pos), e, "r%d" % i)
+            tag = {"distinct": "r%d" % i, "none": None, "same": "refl", "mixed": (None if i % 2 else "a")}[tagging]
+            ub.add_reflection(hkl, Position(*pos), e, tag)
     return ub, (true_p, U_true, true), data
 
 
